@@ -1062,11 +1062,9 @@ impl Work<Context, WorkId, Error> for StaticMetadataWork {
         let selection_flags_explicit = font_info_at_default
             .open_type_os2_selection
             .as_ref()
-            .map(|flags| {
-                flags.iter().fold(SelectionFlags::empty(), |acc, e| {
-                    acc | SelectionFlags::from_bits_truncate(1 << e)
-                })
-            })
+            .map(|flags| bit_indices_to_u16("openTypeOS2Selection", flags))
+            .transpose()?
+            .map(SelectionFlags::from_bits_truncate)
             .unwrap_or_default();
         // Also set any bits implied by the style map style name
         let selection_flags_implicit = selection_flags_implicit(font_info_at_default);
@@ -1125,7 +1123,8 @@ impl Work<Context, WorkId, Error> for StaticMetadataWork {
 
         static_metadata.misc.us_weight_class = font_info_at_default
             .open_type_os2_weight_class
-            .map(|v| v as u16);
+            .map(|v| checked_int("openTypeOS2WeightClass", v))
+            .transpose()?;
         static_metadata.misc.us_width_class = font_info_at_default
             .open_type_os2_width_class
             .map(|v| v as u16);
@@ -1135,7 +1134,8 @@ impl Work<Context, WorkId, Error> for StaticMetadataWork {
             font_info_at_default
                 .open_type_os2_type
                 .as_ref()
-                .map(|flags| flags.iter().fold(0_u16, |acc, e| acc | (1 << *e)))
+                .map(|flags| bit_indices_to_u16("openTypeOS2Type", flags))
+                .transpose()?
                 .unwrap_or(1_u16 << 2),
         );
 
@@ -1152,16 +1152,16 @@ impl Work<Context, WorkId, Error> for StaticMetadataWork {
 
         if let Some(ot_panose) = &font_info_at_default.open_type_os2_panose {
             static_metadata.misc.panose = Some(Panose {
-                family_type: ot_panose.family_type as u8,
-                serif_style: ot_panose.serif_style as u8,
-                weight: ot_panose.weight as u8,
-                proportion: ot_panose.proportion as u8,
-                contrast: ot_panose.contrast as u8,
-                stroke_variation: ot_panose.stroke_variation as u8,
-                arm_style: ot_panose.arm_style as u8,
-                letterform: ot_panose.letterform as u8,
-                midline: ot_panose.midline as u8,
-                x_height: ot_panose.x_height as u8,
+                family_type: checked_int("openTypeOS2Panose", ot_panose.family_type)?,
+                serif_style: checked_int("openTypeOS2Panose", ot_panose.serif_style)?,
+                weight: checked_int("openTypeOS2Panose", ot_panose.weight)?,
+                proportion: checked_int("openTypeOS2Panose", ot_panose.proportion)?,
+                contrast: checked_int("openTypeOS2Panose", ot_panose.contrast)?,
+                stroke_variation: checked_int("openTypeOS2Panose", ot_panose.stroke_variation)?,
+                arm_style: checked_int("openTypeOS2Panose", ot_panose.arm_style)?,
+                letterform: checked_int("openTypeOS2Panose", ot_panose.letterform)?,
+                midline: checked_int("openTypeOS2Panose", ot_panose.midline)?,
+                x_height: checked_int("openTypeOS2Panose", ot_panose.x_height)?,
             });
         }
 
@@ -1173,16 +1173,15 @@ impl Work<Context, WorkId, Error> for StaticMetadataWork {
             .unwrap_or(static_metadata.misc.version_minor);
         static_metadata.misc.lowest_rec_ppm = font_info_at_default
             .open_type_head_lowest_rec_ppem
-            .map(|v| v as u16)
+            .map(|v| checked_int("openTypeHeadLowestRecPPEM", v))
+            .transpose()?
             .unwrap_or(static_metadata.misc.lowest_rec_ppm);
         static_metadata.misc.head_flags = font_info_at_default
             .open_type_head_flags
             .as_ref()
-            .map(|bit_indices| {
-                head::Flags::from_bits_truncate(
-                    bit_indices.iter().map(|i| 1 << i).fold(0, |acc, e| acc | e),
-                )
-            })
+            .map(|bit_indices| bit_indices_to_u16("openTypeHeadFlags", bit_indices))
+            .transpose()?
+            .map(head::Flags::from_bits_truncate)
             .unwrap_or(static_metadata.misc.head_flags);
 
         static_metadata.misc.family_class = font_info_at_default
@@ -1201,16 +1200,21 @@ impl Work<Context, WorkId, Error> for StaticMetadataWork {
         if let Some(gasp_records) = font_info_at_default.open_type_gasp_range_records.as_ref() {
             static_metadata.misc.gasp = gasp_records
                 .iter()
-                .map(|g| GaspRange {
-                    range_max_ppem: g.range_max_ppem as u16,
-                    range_gasp_behavior: GaspRangeBehavior::from_bits_truncate(
-                        g.range_gasp_behavior
-                            .iter()
-                            .map(|b| 1u16 << (*b as u8))
-                            .fold(0u16, |acc, e| acc | e),
-                    ),
+                .map(|g| {
+                    Ok(GaspRange {
+                        range_max_ppem: checked_int(
+                            "openTypeGaspRangeRecords rangeMaxPPEM",
+                            g.range_max_ppem,
+                        )?,
+                        range_gasp_behavior: GaspRangeBehavior::from_bits_truncate(
+                            g.range_gasp_behavior
+                                .iter()
+                                .map(|b| 1u16 << (*b as u8))
+                                .fold(0u16, |acc, e| acc | e),
+                        ),
+                    })
                 })
-                .collect();
+                .collect::<Result<_, Error>>()?;
         }
         static_metadata.variations = variations;
 
@@ -1221,6 +1225,31 @@ impl Work<Context, WorkId, Error> for StaticMetadataWork {
             .set(preliminary_gdef_categories);
         Ok(())
     }
+}
+
+/// Convert a fontinfo list of bit numbers to a 16-bit mask.
+///
+/// Fails for bit numbers that do not exist in a 16-bit field rather than
+/// letting the shift wrap around (or panic, in a build with overflow checks).
+fn bit_indices_to_u16(field: &'static str, bit_indices: &[u8]) -> Result<u16, Error> {
+    bit_indices.iter().try_fold(0_u16, |acc, bit| {
+        1_u16
+            .checked_shl(*bit as u32)
+            .map(|mask| acc | mask)
+            .ok_or_else(|| {
+                Error::InvalidEntry(field, format!("bit {bit} does not fit a 16-bit field"))
+            })
+    })
+}
+
+/// Narrow a fontinfo integer to the width of its binary field, or fail.
+fn checked_int<T: TryFrom<u32>>(field: &'static str, value: u32) -> Result<T, Error> {
+    T::try_from(value).map_err(|_| {
+        Error::InvalidEntry(
+            field,
+            format!("{value} does not fit its {}-bit field", 8 * size_of::<T>()),
+        )
+    })
 }
 
 fn selection_flags_implicit(font_info_at_default: &norad::FontInfo) -> SelectionFlags {
@@ -3132,6 +3161,24 @@ mod tests {
     #[test]
     fn obeys_explicit_fs_type() {
         assert_fs_type("MVAR.designspace", 1 << 3);
+    }
+
+    #[test]
+    fn fontinfo_value_too_big_for_field_is_an_error() {
+        assert_eq!(
+            bit_indices_to_u16("openTypeOS2Type", &[2, 15]).unwrap(),
+            0x8004
+        );
+        for bit in [16, 31, 255] {
+            assert!(matches!(
+                bit_indices_to_u16("openTypeOS2Type", &[bit]),
+                Err(Error::InvalidEntry("openTypeOS2Type", _))
+            ));
+        }
+        assert_eq!(checked_int::<u16>("f", 65535).unwrap(), 65535);
+        assert!(checked_int::<u16>("f", 65536).is_err());
+        assert_eq!(checked_int::<u8>("f", 255).unwrap(), 255);
+        assert!(checked_int::<u8>("f", 256).is_err());
     }
 
     #[test]
